@@ -464,3 +464,721 @@ def c12_titles(run):
     finally:
         w.__exit__(None, None, None)
     return acc.result()
+
+
+# ------------------------------------------------------------------ C17 equality
+def c17_variants():
+    """Element makers: the pool plus one-keyword / one-literal / one-property-attribute / class variations."""
+    from statham.schema.elements import (Array, Element, Integer, Number, Object, String, AnyOf, OneOf, AllOf, Not, Boolean)
+    from statham.schema.property import Property
+    base = [mk for mk in gen.elements(1)]
+    extra = [
+        lambda: Element(const=True), lambda: Element(const=1), lambda: Element(const=1.0), lambda: Element(const=[1]), lambda: Element(const=[True]),
+        lambda: Element(enum=[0]), lambda: Element(enum=[False]), lambda: Element(default=0), lambda: Element(default=False), lambda: Element(default=0.0),
+        lambda: Element(minimum=1), lambda: Element(minimum=1.0),
+        lambda: Element(properties={"a": Property(String())}), lambda: Element(properties={"a": Property(String(), required=True)}),
+        lambda: Element(properties={"a": Property(String(), source="b")}), lambda: Element(properties={"b": Property(String(), source="a")}),
+        lambda: Element(properties={"a": Property(String(default="d"))}), lambda: Element(properties={"a": Property(String(default="d"), required=True)}),
+        lambda: Integer(), lambda: Number(), lambda: Element(), lambda: String(), lambda: Boolean(),
+        lambda: AnyOf(String(), Integer()), lambda: OneOf(String(), Integer()), lambda: AllOf(String(), Integer()), lambda: AnyOf(Integer(), String()),
+        lambda: Array(String()), lambda: Element(items=String()), lambda: Array(String(), uniqueItems=False), lambda: Array(String(), additionalItems=True),
+        lambda: Element(additionalProperties=True), lambda: Element(additionalProperties=Element()), lambda: Element(uniqueItems=False),
+        lambda: Element(required=[]), lambda: Element(description="d"),
+    ]
+
+    def cls(name, **kw):
+        def mk():
+            from statham.schema.elements.meta import ObjectMeta, ObjectClassDict
+            d = ObjectClassDict()
+            for k, v in kw.get("props", {"a": lambda: Property(String())}).items():
+                d[k] = v()
+            return ObjectMeta(name, (Object,), d, **{k: v for k, v in kw.items() if k != "props"})
+        return mk
+    extra += [cls("A"), cls("A"), cls("B"), cls("A", props={"a": lambda: Property(String(), required=True)}),
+              cls("A", props={"a": lambda: Property(String(default="d"))}), cls("A", props={"a": lambda: Property(String(default="d"), required=True)}),
+              cls("A", additionalProperties=False), cls("A", description="x"), cls("A", description="y")]
+    return base + extra
+
+
+def c17_equality(run):
+    from statham.serializers.json import serialize_json
+    makers = c17_variants()
+    acc = Acc(run, "C17-equality", f"all pairs of {len(makers)} element variants (one keyword / literal / property attribute / class apart), independently built copies, "
+              "also after one of the pair has been used and reconfigured back; == must imply same verdicts and same JSON serialisation")
+    w = quiet()
+    vals = gen.values_for(None)[::2] + [{"a": "s"}, {"b": "s"}, {}, {"a": 1}, True, 1, 1.0, 0, False, [1], [True]]
+    try:
+        built = []
+        for mk in makers:
+            try:
+                built.append((mk, mk(), mk()))
+            except Exception:
+                continue
+        for mk, a, a2 in built:
+            key = f"refl:{edesc(a)}"
+            acc.case(key)
+            if not (a == a):
+                acc.fail(key, "element is not equal to itself")
+            if not (a == a2) or not (a2 == a):
+                acc.fail(key, "two independently built copies of the same element are not equal")
+        verdicts = {}
+
+        def vd(e):
+            k = id(e)
+            if k not in verdicts:
+                verdicts[k] = [outcome(e, copy.deepcopy(v))[0] for v in vals]
+            return verdicts[k]
+
+        def js(e):
+            try:
+                return serialize_json(e)
+            except Exception as ex:
+                return f"<{type(ex).__name__}>"
+        for (m1, a, _), (m2, b, _) in itertools.combinations(built, 2):
+            try:
+                eq, qe = (a == b), (b == a)
+            except Exception as ex:
+                acc.fail(f"{edesc(a)} == {edesc(b)}", f"comparison raised {type(ex).__name__}")
+                continue
+            key = f"{edesc(a)} == {edesc(b)}"
+            acc.case(key, nontrivial=bool(eq))
+            if bool(eq) != bool(qe):
+                acc.fail(key, f"equality is not symmetric: a==b is {eq}, b==a is {qe}")
+            if eq:
+                tags = []
+                if isinstance(a, type) and isinstance(b, type) and a.__name__ != b.__name__:
+                    tags.append("D17-names")
+                if jkey(obs(a)) != jkey(obs(b)) and repr(a) == repr(b):
+                    pass
+                if vd(a) != vd(b):
+                    i = next(i for i, (x, y) in enumerate(zip(vd(a), vd(b))) if x != y)
+                    acc.fail(key, f"equal elements disagree on {vals[i]!r}: {vd(a)[i]} vs {vd(b)[i]}", extra={"tags": tags + literal_tags(a, b)})
+                elif not pyspec.json_eq(js(a), js(b)):
+                    acc.fail(key, f"equal elements serialise differently: {jkey(js(a))[:160]} vs {jkey(js(b))[:160]}", extra={"tags": tags + literal_tags(a, b)})
+    finally:
+        w.__exit__(None, None, None)
+    return acc.result()
+
+
+def literal_tags(a, b):
+    """D17: the two elements differ only by literals that are == in Python but different JSON values (True/1/1.0)."""
+    ra, rb = repr(a), repr(b)
+    import re
+    def tok(m):
+        t = m.group(0)
+        v = {"True": 1, "False": 0}.get(t)
+        if v is None:
+            v = float(t)
+        return f"<{float(v)}>"
+    norm = lambda s: re.sub(r"\b\d+\.\d+\b|\bTrue\b|\bFalse\b|\b\d+\b", tok, s)
+    return ["D17-literals"] if ra != rb and norm(ra) == norm(rb) else []
+
+
+# ------------------------------------------------------------------ C18 repr
+def c18_repr(run):
+    import statham.schema.elements as E
+    from statham.schema.property import Property
+    from statham.schema.constants import NotPassed
+    ns = {k: getattr(E, k) for k in dir(E) if not k.startswith("_")}
+    ns["Property"] = Property
+    ns["NotPassed"] = NotPassed
+    acc = Acc(run, "C18-repr", "element pool (levels 0-1 + literal variants), fresh and after validating values; properties stand-alone (unbound) and through their element; eval(repr(x)) == x")
+    w = quiet()
+    try:
+        makers = [mk for mk in gen.elements(1)] + [mk for mk in c17_variants()[len(gen.elements(1)):] if True]
+        for mk in makers:
+            try:
+                e = mk()
+            except Exception:
+                continue
+            if isinstance(e, type):
+                continue
+            for used in (False, True):
+                if used:
+                    for v in gen.values_for(None)[::9]:
+                        outcome(e, copy.deepcopy(v))
+                    try:
+                        e(NotPassed())
+                    except Exception:
+                        pass
+                key = f"{'used ' if used else ''}{edesc(mk())}"
+                acc.case(key)
+                try:
+                    r = repr(e)
+                    back = eval(r, dict(ns))
+                except Exception as ex:
+                    acc.fail(key, f"repr does not evaluate: {type(ex).__name__}: {ex}")
+                    continue
+                if not (back == e) or not (e == back):
+                    acc.fail(key, f"eval(repr(x)) != x for repr {r[:160]}")
+                if repr(back) != r:
+                    acc.fail(key, f"repr is not stable: {r[:120]} -> {repr(back)[:120]}")
+        from statham.schema.elements import String, Integer, Element
+        props = [lambda: Property(String()), lambda: Property(String(), required=True), lambda: Property(Integer(), source="x"),
+                 lambda: Property(Element(minimum=1), required=True, source="a-b"), lambda: Property(String(), source=""),
+                 lambda: Property(String(default="d"))]
+        for mk in props:
+            p = mk()
+            key = f"property {p!r}"
+            acc.case(key)
+            try:
+                back = eval(repr(p), dict(ns))
+                if not (back == p):
+                    acc.fail(key, f"eval(repr(p)) != p for an unbound property: {p!r} (source {p.source!r}) -> {back!r} (source {back.source!r})")
+            except Exception as ex:
+                acc.fail(key, f"{type(ex).__name__}: {ex}")
+            holder = Element(properties={"attr": mk()})
+            bp = holder.properties["attr"]
+            acc.case(key + " [bound, stand-alone]")
+            try:
+                back = eval(repr(bp), dict(ns))
+                if not (back == bp):
+                    acc.fail(key + " [bound, stand-alone]", f"a property bound to an element, evaluated on its own: {bp!r} (source {bp.source!r}) -> source {back.source!r}",
+                             extra={"tags": ["D21-shape"] if mk().source is None else []})
+            except Exception as ex:
+                acc.fail(key + " [bound, stand-alone]", f"{type(ex).__name__}: {ex}")
+            back = eval(repr(holder), dict(ns))
+            acc.case(key + " [bound]")
+            if not (back == holder) or back.properties["attr"].source != holder.properties["attr"].source:
+                acc.fail(key + " [bound]", f"element holding the property does not round-trip: {holder!r} -> {back!r}")
+    finally:
+        w.__exit__(None, None, None)
+    return acc.result()
+
+
+# ------------------------------------------------------------------ C19 annotations
+def parse_annotation(text):
+    """Annotation text -> type term, read the way a type checker reads it."""
+    import ast as _ast
+    node = _ast.parse(text, mode="eval").body
+
+    def go(n):
+        if isinstance(n, _ast.Name):
+            return ("name", n.id)
+        if isinstance(n, _ast.Constant) and n.value is None:
+            return ("name", "None")
+        if isinstance(n, _ast.Subscript):
+            head = n.value.id
+            args = n.slice.elts if isinstance(n.slice, _ast.Tuple) else [n.slice]
+            return (head, [go(a) for a in args])
+        raise ValueError(_ast.dump(n))
+    return go(node)
+
+
+def has_type(x, t, classes):
+    from statham.schema.constants import NotPassed
+    kind = t[0]
+    if kind == "name":
+        n = t[1]
+        if n == "Any":
+            return not isinstance(x, NotPassed)
+        if n == "None":
+            return x is None
+        if n == "str":
+            return isinstance(x, str)
+        if n == "int":
+            return isinstance(x, int) and not isinstance(x, bool)
+        if n == "float":
+            return isinstance(x, (int, float)) and not isinstance(x, bool)
+        if n == "bool":
+            return isinstance(x, bool)
+        if n == "List":
+            return isinstance(x, list)
+        if n in classes:
+            return isinstance(x, classes[n])
+        raise ValueError(f"unknown type name {n}")
+    if kind == "List":
+        return isinstance(x, list) and all(has_type(i, t[1][0], classes) for i in x)
+    if kind == "Union":
+        return any(has_type(x, a, classes) for a in t[1])
+    if kind == "Maybe":
+        return isinstance(x, NotPassed) or has_type(x, t[1][0], classes)
+    raise ValueError(kind)
+
+
+def c19_models():
+    from statham.schema.elements import (AllOf, AnyOf, Array, Boolean, Element, Integer, Not, Null, Number, Object, OneOf, String)
+    from statham.schema.property import Property
+
+    class Inner(Object):
+        n = Property(Number(), required=True)
+
+    class Other(Object):
+        s = Property(String())
+    subs = {
+        "str": (lambda: String(), ["a", ""]), "int": (lambda: Integer(), [1, 0]), "num": (lambda: Number(), [1, 1.5]),
+        "bool": (lambda: Boolean(), [True]), "null": (lambda: Null(), [None]), "any": (lambda: Element(), [1, "a", None, [1], {"a": 1}]),
+        "arr_str": (lambda: Array(String()), [[], ["a"]]), "arr_num": (lambda: Array(Number()), [[1, 2.5]]),
+        "arr_any": (lambda: Array(Element()), [[1, "a"]]), "tuple": (lambda: Array([String(), Integer()]), [["a", 1], ["a", 1, None]]),
+        "tuple_closed": (lambda: Array([String(), Integer()], additionalItems=False), [["a", 1], ["a"]]),
+        "tuple_add": (lambda: Array([String()], additionalItems=Integer()), [["a", 1, 2]]),
+        "obj": (lambda: Inner, [{"n": 1}]), "arr_obj": (lambda: Array(Inner), [[{"n": 1}, {"n": 2.5}]]),
+        "anyof": (lambda: AnyOf(String(), Integer()), ["a", 1]), "oneof": (lambda: OneOf(Integer(), String()), ["a", 1]),
+        "anyof_obj": (lambda: AnyOf(Inner, Other, String()), [{"n": 1}, {"s": "x"}, "z"]),
+        "allof": (lambda: AllOf(String(), Element(minLength=1)), ["a"]), "allof2": (lambda: AllOf(Element(minimum=0), Integer()), [1]),
+        "allof_obj_first": (lambda: AllOf(Inner, Element(minProperties=1)), [{"n": 1}]),
+        "allof_obj_second": (lambda: AllOf(Element(minProperties=1), Inner), [{"n": 1}]),
+        "not": (lambda: Not(String()), [1, None]), "arr_anyof": (lambda: Array(AnyOf(String(), Integer())), [["a", 1]]),
+        "str_default": (lambda: String(default="d"), ["a"]), "int_default": (lambda: Integer(default=3), [1]),
+        "obj_default": (lambda: type(Inner)("InnerD", (Object,), type(Inner).__prepare__("InnerD", ()), default={}), [{}]),
+        "arr_default": (lambda: Array(Integer(), default=[1]), [[2]]),
+        "num_default_int": (lambda: Number(default=2), [1]),
+    }
+    return subs, {"Inner": Inner, "Other": Other}
+
+
+def c19_annotations(run):
+    from statham.schema.elements import Object
+    from statham.schema.elements.meta import ObjectMeta, ObjectClassDict
+    from statham.schema.property import Property
+    from statham.schema.constants import NotPassed
+    subs, classes = c19_models()
+    acc = Acc(run, "C19-annotations", f"{len(subs)} element shapes placed under a property (required / optional) and under array items of a model; accepted values; "
+              "the annotation text is parsed and the runtime attribute checked against it (NotPassed only under Maybe, int where float is announced)")
+    w = quiet()
+    try:
+        for name, (mk, good) in subs.items():
+            for required in (False, True):
+                d = ObjectClassDict()
+                try:
+                    d["p"] = Property(mk(), required=required)
+                except Exception:
+                    continue
+                M = ObjectMeta("Model", (Object,), d)
+                prop = M.properties["p"]
+                try:
+                    ann = prop.annotation
+                    term = parse_annotation(ann)
+                except Exception as ex:
+                    acc.case(f"{name}/req={required}")
+                    acc.fail(f"{name}/req={required}", f"annotation not readable: {type(ex).__name__}: {ex}")
+                    continue
+                cl = dict(classes)
+                el = prop.element
+                if isinstance(el, type):
+                    cl[el.__name__] = el
+                datas = [{"p": g} for g in good] + ([] if required else [{}])
+                for data in datas:
+                    key = f"{name}/req={required}: {ann} <- {jkey(data)}"
+                    k, m = outcome(M, copy.deepcopy(data))
+                    acc.case(key, nontrivial=(k == "ok"))
+                    if k != "ok":
+                        continue
+                    val = m.p
+                    try:
+                        ok = has_type(val, term, cl)
+                    except Exception as ex:
+                        acc.fail(key, f"annotation {ann!r} not checkable: {ex}")
+                        continue
+                    if not ok:
+                        acc.fail(key, f"attribute holds {val!r} ({type(val).__name__}) which is not of the annotated type {ann}",
+                                 extra={"tags": ["D20-shape"] if name == "allof_obj_second" else []})
+                    if term[0] != "Maybe" and isinstance(val, NotPassed):
+                        acc.fail(key, f"annotated as always present ({ann}) but the attribute holds NotPassed")
+                has_default = not isinstance(getattr(el, "default", NotPassed()), NotPassed)
+                if term[0] != "Maybe" and not (required or has_default):
+                    acc.fail(f"{name}/req={required}", f"annotated as always present ({ann}) although neither required nor defaulted")
+    finally:
+        w.__exit__(None, None, None)
+    return acc.result()
+
+
+# ------------------------------------------------------------------ C02 / C06 / C03: documents through the generator
+C02_DOCS = {
+    "simple.json": {"type": "object", "title": "Simple", "required": ["a"], "properties": {"a": {"type": "string"}, "b": {"type": "integer", "default": 3}}},
+    "nested.json": {"type": "object", "title": "Outer", "properties": {
+        "inner": {"type": "object", "title": "Inner", "properties": {"n": {"type": "number"}}, "required": ["n"]},
+        "list": {"type": "array", "items": {"type": "object", "title": "Item", "properties": {"k": {"type": "string"}}}},
+        "untitled": {"type": "object", "properties": {"z": {"type": "boolean"}}},
+        "tuple": {"type": "array", "items": [{"type": "object", "title": "Item", "properties": {"k": {"type": "integer"}}}, {"type": "string"}]}}},
+    "refs.json": {"type": "object", "title": "Refs", "properties": {
+        "a": {"$ref": "#/definitions/thing"}, "b": {"$ref": "#/definitions/thing"}, "c": {"$ref": "other.json#/definitions/thing"},
+        "d": {"type": "array", "items": {"$ref": "#/definitions/other"}}, "e": {"$ref": "#/definitions/other"}},
+        "definitions": {"thing": {"type": "object", "title": "Thing", "properties": {"x": {"type": "string"}}},
+                        "other": {"type": "object", "title": "Thing", "properties": {"y": {"type": "integer"}}, "additionalProperties": False}}},
+    "other.json": {"definitions": {"thing": {"type": "object", "title": "Thing", "properties": {"z": {"type": "number"}}, "required": ["z"]}}},
+    "noprops.json": {"type": "object", "title": "Root", "additionalProperties": {"properties": {"v": {"type": "string"}}, "required": ["v"]}},
+    "compose.json": {"type": "object", "title": "Comp", "description": "A \"quoted\" description\nwith two lines", "properties": {
+        "u": {"anyOf": [{"type": "string"}, {"type": "object", "title": "U", "properties": {"q": {"type": "null"}}}]},
+        "m": {"type": ["string", "null"], "default": None}, "n": {"not": {"type": "string"}},
+        "a-b": {"type": "string"}, "class": {"type": "integer"}, "o": {"oneOf": [{"minimum": 3}, {"maxLength": 2}], "type": ["integer", "string"]}},
+        "patternProperties": {"^x": {"type": "integer"}}, "dependencies": {"u": ["m"]}, "propertyNames": {"maxLength": 5}},
+    "array_root.json": {"type": "array", "title": "Arr", "items": {"type": "object", "title": "Elem", "properties": {"v": {"type": "string", "format": "uuid"}}}},
+}
+C02_ROOTS = ["simple.json", "nested.json", "refs.json", "noprops.json", "compose.json", "array_root.json"]
+C02_VALUES = [{}, {"a": "s"}, {"a": "s", "b": 1}, {"a": 1}, {"inner": {"n": 1}}, {"inner": {}}, {"list": [{"k": "s"}, {"k": 1}]}, {"list": [{"k": "s"}]},
+              {"untitled": {"z": True}}, {"untitled": {"z": 1}}, {"tuple": [{"k": 1}, "s"]}, {"tuple": [{"k": "s"}]}, {"a": {"x": "s"}}, {"a": {"x": 1}},
+              {"c": {"z": 1}}, {"c": {}}, {"d": [{"y": 1}]}, {"d": [{"y": 1, "w": 2}]}, {"k": {"v": "s"}}, {"k": {"v": 1}}, {"k": {}}, {"u": "s", "m": None},
+              {"u": {"q": None}, "m": "s"}, {"u": 1}, {"u": "s"}, {"n": 1}, {"n": "s"}, {"a-b": "s"}, {"a-b": 1}, {"class": 1}, {"class": "s"}, {"o": 5}, {"o": "ab"},
+              {"o": "abc"}, {"o": 1}, {"x1": 1}, {"x1": "s"}, {"toolongname": 1}, [], [{"v": "123e4567-e89b-12d3-a456-426614174000"}], [{"v": "nope"}], [1], "s", None]
+
+
+def materialise(tmp, name):
+    from json_ref_dict import materialize, RefDict
+    from statham.titles import title_labeller
+    return materialize(RefDict.from_uri(os.path.join(tmp, name) + "#/"), context_labeller=title_labeller())
+
+
+def c02_generated(run):
+    from statham.__main__ import main
+    from statham.schema.parser import parse
+    from statham.schema.elements.meta import ObjectMeta
+    from statham.serializers.orderer import get_object_classes
+    acc = Acc(run, "C02-generated", f"{len(C02_ROOTS)} documents written to temp files (local and cross-file $ref, repeated titles, untitled nested objects, compositions, renamed properties) "
+              "through statham.__main__.main; module executed in an empty namespace; classes compared with parse(); verdicts compared with the Draft-6 oracle")
+    tmp = tempfile.mkdtemp(prefix="pyvc_c02_")
+    w = quiet()
+    try:
+        for name, doc in C02_DOCS.items():
+            json.dump(doc, open(os.path.join(tmp, name), "w"))
+        fm = registered_formats()
+        for name in C02_ROOTS:
+            acc.case(name)
+            try:
+                src = main(os.path.join(tmp, name) + "#/")
+            except Exception as ex:
+                acc.fail(name, f"generation raised {type(ex).__name__}: {ex}")
+                continue
+            ns = {}
+            try:
+                exec(compile(src, f"<generated {name}>", "exec"), ns)
+            except Exception as ex:
+                acc.fail(name, f"generated module does not execute with its own imports: {type(ex).__name__}: {ex}", extra={"source": src[:1500]})
+                continue
+            parsed = parse(materialise(tmp, name))
+            pclasses = get_object_classes(*parsed)
+            distinct = []
+            for c in pclasses:
+                if not any(c is d for d in distinct):
+                    distinct.append(c)
+            gen_classes = {k: v for k, v in ns.items() if isinstance(v, ObjectMeta) and v.__module__ != "statham.schema.elements.object"}
+            names = [c.__name__ for c in distinct]
+            if len(set(names)) != len(names):
+                acc.fail(name, f"parsed classes do not have distinct names: {names}")
+            import re as _re
+            declared = _re.findall(r"^class (\w+)\(", src, _re.M)
+            if sorted(declared) != sorted(set(names)):
+                acc.fail(name, f"module declares classes {declared}, distinct object schemas are {sorted(set(names))} (exactly one class each)")
+            # one class per distinct object schema: structurally equal same-title classes must have been merged
+            for c in distinct:
+                G = ns.get(c.__name__)
+                if not isinstance(G, ObjectMeta):
+                    acc.fail(name, f"class {c.__name__} missing from the generated module")
+                    continue
+                if not (G == c):
+                    acc.fail(name, f"generated class {c.__name__} is not equal to the parsed one")
+                if G.__name__ != c.__name__ or jkey(obs(G)) != jkey(obs(c)):
+                    acc.fail(name, f"generated class {c.__name__} differs observably from the parsed one (nested class names / defaults / descriptions)")
+            root = parsed[0]
+            groot = ns.get(getattr(root, "__name__", "")) if isinstance(root, ObjectMeta) else None
+            raw = json.load(open(os.path.join(tmp, name)))
+            for v in C02_VALUES:
+                key = f"{name} <- {jkey(v)}"
+                k1, r1 = outcome(root, copy.deepcopy(v))
+                acc.case(key, nontrivial=(k1 == "ok"))
+                if groot is not None:
+                    k2, r2 = outcome(groot, copy.deepcopy(v))
+                    if k1 != k2:
+                        acc.fail(key, f"generated root class {k2}, parsed model {k1}")
+                    elif k1 == "ok" and jkey(obs(plain(r1))) != jkey(obs(plain(r2))):
+                        acc.fail(key, "generated root class builds a different model than the parsed one")
+                try:
+                    want = draft6.valid(deref_doc(tmp, name), v, formats=fm)
+                except Exception:
+                    continue
+                if (k1 == "ok") != want:
+                    acc.fail(key, f"parsed model {k1}, Draft 6 says {'valid' if want else 'invalid'}")
+    finally:
+        shutil.rmtree(tmp, ignore_errors=True)
+        w.__exit__(None, None, None)
+    return acc.result()
+
+
+def deref_doc(tmp, name):
+    """Inline every $ref (local and cross-file) for the oracle."""
+    def load(n):
+        return json.load(open(os.path.join(tmp, n)))
+
+    def go(node, base, root):
+        if isinstance(node, dict):
+            if "$ref" in node:
+                ref = node["$ref"]
+                f, _, ptr = ref.partition("#")
+                b2 = f or base
+                r2 = load(b2)
+                return go(draft6.resolve(r2, "#" + ptr), b2, r2)
+            return {k: go(v, base, root) for k, v in node.items()}
+        if isinstance(node, list):
+            return [go(v, base, root) for v in node]
+        return node
+    root = load(name)
+    return go(root, name, root)
+
+
+# ------------------------------------------------------------------ C03 JSON serialisation preserves meaning
+def refs_of(doc):
+    out = []
+
+    def go(n):
+        if isinstance(n, dict):
+            if "$ref" in n and isinstance(n["$ref"], str):
+                out.append(n["$ref"])
+            for v in n.values():
+                go(v)
+        elif isinstance(n, list):
+            for v in n:
+                go(v)
+    go(doc)
+    return out
+
+
+def ms_shape_ok(S):
+    """Light Draft-6 metaschema shape check of a serialised document."""
+    if isinstance(S, bool):
+        return None
+    if not isinstance(S, dict):
+        return f"schema position holds {type(S).__name__}"
+    for k, v in S.items():
+        if k in ("properties", "patternProperties", "definitions"):
+            if not isinstance(v, dict):
+                return f"{k} is not an object"
+            for s in v.values():
+                r = ms_shape_ok(s)
+                if r:
+                    return r
+        elif k in ("items",):
+            for s in (v if isinstance(v, list) else [v]):
+                r = ms_shape_ok(s)
+                if r:
+                    return r
+        elif k in ("additionalItems", "additionalProperties", "contains", "propertyNames", "not"):
+            r = ms_shape_ok(v)
+            if r:
+                return r
+        elif k in ("anyOf", "oneOf", "allOf"):
+            if not isinstance(v, list) or not v:
+                return f"{k} must be a non-empty array"
+            for s in v:
+                r = ms_shape_ok(s)
+                if r:
+                    return r
+        elif k == "dependencies":
+            for s in v.values():
+                if not isinstance(s, list):
+                    r = ms_shape_ok(s)
+                    if r:
+                        return r
+        elif k == "required":
+            if not isinstance(v, list) or not all(isinstance(x, str) for x in v) or len(set(v)) != len(v):
+                return "required must be an array of unique strings"
+        elif k == "type":
+            if not (isinstance(v, str) or (isinstance(v, list) and v)):
+                return "bad type keyword"
+    return None
+
+
+def c03_json(run):
+    from statham.serializers.json import serialize_json
+    from statham.schema.elements import Object, String, Integer, Array, Element, Nothing
+    from statham.schema.property import Property
+    acc = Acc(run, "C03-json", "DSL element pool level 2 (+ shared classes, several roots, caller-supplied definitions, mutated-after-first-serialisation) x value pool: "
+              "document is JSON, Draft-6 shaped, references resolve, and it accepts exactly what the element accepts (independent oracle)")
+    w = quiet()
+    fm = registered_formats()
+    vals = gen.values_for(None)
+    if run.tier == "quick":
+        vals = vals[::2] + [{"a": "x"}, {"a": 1}, {"b": "x"}, {"class": "k"}, {"a-b": 1}, [1], ["a"], ["a", 1], [1, "x"], []]
+
+    def check(label, elements, kwargs, tags=None):
+        key = label
+        acc.case(key)
+        try:
+            doc = serialize_json(*elements, **kwargs)
+        except Exception as ex:
+            acc.fail(key, f"serialize_json raised {type(ex).__name__}: {ex}", extra={"tags": (tags or []) + (["D26-shape"] if isinstance(elements[0], Nothing) else [])})
+            return
+        try:
+            json.loads(json.dumps(doc))
+        except Exception as ex:
+            acc.fail(key, f"document is not JSON-serialisable: {ex}")
+            return
+        if not isinstance(doc, dict):
+            acc.fail(key, f"document is {type(doc).__name__}, not an object")
+            return
+        r = ms_shape_ok(doc)
+        if r:
+            acc.fail(key, f"not a valid Draft-6 schema: {r}")
+            return
+        for ref in refs_of(doc):
+            try:
+                draft6.resolve(doc, ref)
+            except Exception:
+                acc.fail(key, f"reference {ref} does not resolve inside the document", extra={"tags": tags or []})
+                return
+        e = elements[0]
+        for v in vals:
+            k1, _ = outcome(e, copy.deepcopy(v))
+            try:
+                want = draft6.valid(doc, v, formats=fm)
+            except Exception as ex:
+                acc.fail(f"{key} <- {jkey(v)}", f"oracle cannot evaluate the document: {type(ex).__name__}: {ex}")
+                return
+            acc.case(f"{key} <- {jkey(v)}", nontrivial=(k1 == "ok"))
+            if (k1 == "ok") != want:
+                acc.fail(f"{key} <- {jkey(v)}", f"element {'accepts' if k1 == 'ok' else 'rejects'} but its serialisation {jkey(doc)[:200]} says {'valid' if want else 'invalid'}",
+                         extra={"tags": c03_tags(e)})
+    try:
+        for i, mk, e in element_cases(2):
+            check(edesc(e), [e], {})
+        # extra shapes
+        for label, mk in c03_extra().items():
+            try:
+                els, kw = mk()
+            except Exception as ex:
+                continue
+            check(label, els, kw, tags=["D15-shape"] if label == "primary referenced by another root" else None)
+        # serialise, extend a class in place, serialise again
+        class Customer(Object):
+            name = Property(String())
+        class Address(Object):
+            street = Property(String(), required=True)
+        serialize_json(Customer)
+        Customer.properties["address"] = Property(Address)
+        check("class extended after a first serialisation", [Customer], {})
+    finally:
+        w.__exit__(None, None, None)
+    return acc.result()
+
+
+def c03_tags(e):
+    """Known-finding shapes: renamed properties (D13), explicit required next to properties / required+default (D14)."""
+    from statham.serializers.orderer import get_children
+    tags = set()
+    try:
+        for x in [e] + list(get_children(e)):
+            props = getattr(x, "properties", None) or {}
+            if any(p.source != n for n, p in props.items()):
+                tags.add("D13-shape")
+            req = getattr(x, "required", None)
+            if props and isinstance(req, list) and req:
+                tags.add("D14-shape")
+            from statham.schema.constants import NotPassed
+            if any(p.required and not isinstance(getattr(p.element, "default", NotPassed()), NotPassed) for p in props.values()):
+                tags.add("D14-shape")
+    except Exception:
+        pass
+    return sorted(tags)
+
+
+def c03_extra():
+    from statham.schema.elements import Object, String, Integer, Array, Element, Nothing, AnyOf
+    from statham.schema.property import Property
+
+    def shared():
+        class Leaf(Object):
+            v = Property(String(), required=True)
+
+        class A(Object):
+            l = Property(Leaf)
+            ls = Property(Array(Leaf))
+        return [A], {}
+
+    def two_roots():
+        class P(Object):
+            x = Property(Integer())
+
+        class Q(Object):
+            p = Property(P)
+        return [Q, P], {}
+
+    def primary_referenced():
+        class Choice(Object):
+            c = Property(String())
+
+        class Poll(Object):
+            choices = Property(Array(Choice))
+        return [Choice, Poll], {}
+
+    def with_definitions():
+        s = String(minLength=1)
+        return [Element(properties={"a": Property(String(minLength=1)), "b": Property(Array(String(minLength=1)))})], {"definitions": {"nonempty": s}}
+
+    def definitions_class():
+        class D(Object):
+            k = Property(Integer(), required=True)
+        return [Array(D)], {"definitions": {"extra": Integer(minimum=0)}}
+    return {"shared class": shared, "two roots": two_roots, "primary referenced by another root": primary_referenced,
+            "caller definitions": with_definitions, "caller definitions + class": definitions_class,
+            "empty tuple items closed": lambda: ([Array([], additionalItems=False)], {}), "items nothing": lambda: ([Array(Nothing())], {}),
+            "empty tuple with additional": lambda: ([Element(items=[], additionalItems=Integer())], {}),
+            "nothing root": lambda: ([Nothing()], {})}
+
+
+# ------------------------------------------------------------------ C06 round trips
+def c06_roundtrip(run):
+    from statham.schema.parser import parse_element, parse
+    from statham.serializers.json import serialize_json
+    from statham.schema.elements.meta import ObjectMeta
+    docs = (schemas.quick() if run.tier == "quick" else schemas.thorough()) + schemas.with_defaults()[::3] + [
+        {"type": "object", "title": "Cmd", "description": "A command.\n", "properties": {"a": {"type": "string"}}},
+        {"type": "object", "title": "Cmd", "description": "  leading\n    indented block\n", "properties": {"a": {"type": "string"}}},
+        {"type": ["string", "null"], "default": None}, {"type": "object", "title": "N", "properties": {"p": {"type": ["integer", "null"], "default": None}}}]
+    acc = Acc(run, "C06-roundtrip", f"{len(docs)} schema documents: serialize(parse(serialize(parse(S)))) == serialize(parse(S)); executed Python source yields classes equal to the parsed ones")
+    w = quiet()
+
+    def deref(doc):
+        def go(n):
+            if isinstance(n, dict):
+                if "$ref" in n:
+                    return go(copy.deepcopy(draft6.resolve(doc, n["$ref"])))
+                return {k: go(v) for k, v in n.items() if k != "definitions"}
+            if isinstance(n, list):
+                return [go(v) for v in n]
+            return n
+        return go(doc)
+    try:
+        for S in docs:
+            key = jkey(S)
+            try:
+                E1 = parse_element(copy.deepcopy(S))
+                J1 = serialize_json(E1)
+            except Exception as ex:
+                acc.case(key, nontrivial=False)
+                continue
+            acc.case(key)
+            try:
+                E2 = parse_element(deref(copy.deepcopy(J1)))
+                J2 = serialize_json(E2)
+            except Exception as ex:
+                acc.fail(key, f"serialised document {jkey(J1)[:160]} does not parse/serialise again: {type(ex).__name__}: {ex}", extra={"tags": c06_tags(S, E1)})
+                continue
+            if not pyspec.same(J1, J2):
+                acc.fail(key, f"second round trip differs: {jkey(J1)[:200]} -> {jkey(J2)[:200]}", extra={"tags": c06_tags(S, E1)})
+            if not (E2 == E1) and not isinstance(E1, ObjectMeta):
+                acc.fail(key + " [element]", "re-parsed element is not equal to the parsed one", extra={"tags": c06_tags(S, E1)})
+            if isinstance(E1, ObjectMeta):
+                try:
+                    src, ns = exec_generated([E1])
+                    G = ns[E1.__name__]
+                    if not (G == E1) or jkey(obs(G)) != jkey(obs(E1)):
+                        acc.fail(key + " [python]", "classes obtained by executing the generated source differ from the parsed ones", extra={"tags": c06_tags(S, E1)})
+                    elif not pyspec.same(serialize_json(G), J1):
+                        acc.fail(key + " [python]", "generated classes serialise differently")
+                except Exception as ex:
+                    acc.fail(key + " [python]", f"generated source failed: {type(ex).__name__}: {ex}", extra={"tags": c06_tags(S, E1)})
+    finally:
+        w.__exit__(None, None, None)
+    return acc.result()
+
+
+def c06_tags(S, E):
+    tags = set(c03_tags(E))
+    def has_empty_required(n):
+        if isinstance(n, dict):
+            return n.get("required") == [] or any(has_empty_required(v) for v in n.values())
+        if isinstance(n, list):
+            return any(has_empty_required(v) for v in n)
+        return False
+    if has_empty_required(S):
+        tags.add("D28-shape")
+    return sorted(tags)
